@@ -239,6 +239,22 @@ def run_case(c):
     if k == "rc2":
         mt = get_mt(c["v"], c["m"])
         return observe(lambda: mt.rc(mt.rc(c["s"])))
+    if k == "viewops":
+        # str() after each of a chain of rc() / complement() / [a:b] on a sequence object
+        def f():
+            mt = get_mt(c["v"], c["m"])
+            seq = mt.make_seq(c["s"]) if c["v"] == "old" else mt.make_seq(seq=c["s"])
+            out = []
+            for op in c["ops"]:
+                if op == "rc":
+                    seq = seq.rc()
+                elif op == "comp":
+                    seq = seq.complement()
+                else:
+                    seq = seq[op[0]:op[1]]
+                out.append(str(seq))
+            return out
+        return observe(f)
     if k == "seqrc":
         # sequence objects: str(seq.rc()), str(seq.complement()), str(seq.rc().rc())
         def f():
